@@ -2534,6 +2534,63 @@ def gen_illumina():
 
 
 
+def gen_comparator_tables():
+    """tables read by JunctionComparator (src/junction_comparator.py): `alternative_sites` (src/isoform_assignment.py), the
+    inline event set of classify_single_intron_alternation that triggers the suspicious-intron re-labelling, and every
+    MatchEventSubtype member the comparator can put into a MatchEvent"""
+    ia = parse("src/isoform_assignment.py")
+    jc = parse("src/junction_comparator.py")
+    out = ["-- GENERATED by harness/translate.py from /repo/src/isoform_assignment.py, /repo/src/junction_comparator.py "
+           "-- do not edit", "import IsoVerif.Gen.Enums", "namespace IsoVerif.Gen", ""]
+    info = {}
+    alt = find_assign(ia, "alternative_sites")
+    if not isinstance(alt, ast.Dict):
+        raise TranslationError("alternative_sites is not a dict display")
+    rows = []
+    for k, v in zip(alt.keys, alt.values):
+        if not (isinstance(k, ast.Tuple) and len(k.elts) == 2 and isinstance(k.elts[0], ast.Constant)
+                and isinstance(k.elts[0].value, str) and isinstance(k.elts[1], ast.Constant)
+                and isinstance(k.elts[1].value, bool) and isinstance(v, ast.Attribute)
+                and isinstance(v.value, ast.Name) and v.value.id == "MatchEventSubtype"):
+            raise TranslationError("alternative_sites: unexpected entry %s" % ast.unparse(k))
+        rows.append((k.elts[0].value, k.elts[1].value, v.attr))
+    info["alternative_sites"] = rows
+    out.append("/-- `alternative_sites[(side, read_introns_known)]`; `none` = KeyError -/")
+    out.append("def alternative_sites_table : List ((String × Bool) × MatchEventSubtype) := [" +
+               ", ".join('(("%s", %s), .%s)' % (a, "true" if b else "false", lean_ident(m)) for a, b, m in rows) + "]")
+    out.append("def alternative_sites (side : String) (known : Bool) : Option MatchEventSubtype := "
+               "(alternative_sites_table.find? (fun p => p.1.1 == side && p.1.2 == known)).map (·.2)\n")
+    cls = find_def(jc, "JunctionComparator")
+    fn = find_def(jc, "classify_single_intron_alternation", "JunctionComparator")
+    sets = [n for n in ast.walk(fn) if isinstance(n, ast.Compare) and len(n.ops) == 1 and isinstance(n.ops[0], ast.In)
+            and isinstance(n.left, ast.Name) and n.left.id == "event" and isinstance(n.comparators[0], ast.Set)]
+    if len(sets) != 1:
+        raise TranslationError("classify_single_intron_alternation: expected one `event in {...}` test")
+    ms = attr_members(sets[0].comparators[0], "MatchEventSubtype")
+    info["suspicious_alternation_events"] = ms
+    out.append("/-- events of classify_single_intron_alternation that are re-labelled intron_retention for suspicious introns -/")
+    out.append("def suspicious_alternation_events : List MatchEventSubtype := %s\n" % lean_list("MatchEventSubtype", ms))
+    # the literal side names used with alternative_sites inside the comparator must be keys of the table
+    for n in ast.walk(cls):
+        if isinstance(n, ast.Subscript) and isinstance(n.value, ast.Name) and n.value.id == "alternative_sites":
+            k = n.slice
+            if not (isinstance(k, ast.Tuple) and isinstance(k.elts[0], ast.Constant) and k.elts[0].value in ("left", "right")):
+                raise TranslationError("alternative_sites[...] used with an unexpected key: %s" % ast.unparse(k))
+    seen = []
+    for n in ast.walk(cls):
+        if isinstance(n, ast.Attribute) and isinstance(n.value, ast.Name) and n.value.id == "MatchEventSubtype":
+            if n.attr not in seen:
+                seen.append(n.attr)
+    for _, _, m in rows:
+        if m not in seen:
+            seen.append(m)
+    info["comparator_event_types"] = seen
+    out.append("/-- every MatchEventSubtype member named in class JunctionComparator (plus the values of alternative_sites) -/")
+    out.append("def comparator_event_types : List MatchEventSubtype := %s" % lean_list("MatchEventSubtype", seen))
+    out.append("\nend IsoVerif.Gen\n")
+    return "\n".join(out), info
+
+
 GENERATORS = [("Prims", gen_prims), ("Enums", gen_enums), ("EventClasses", gen_event_classes),
               ("Strategies", gen_strategies), ("Constants", gen_constants), ("SharedState", gen_shared_state),
               ("SetSites", gen_set_sites),            # C06
@@ -2545,6 +2602,7 @@ GENERATORS = [("Prims", gen_prims), ("Enums", gen_enums), ("EventClasses", gen_e
               ("CigarClasses", gen_cigar_classes),    # C16
               ("Resolver", gen_resolver),             # C08
               ("ModelConstruction", gen_model_construction),   # C04
+              ("ComparatorTables", gen_comparator_tables),     # C01 (compare_junctions)
               ]
 
 
